@@ -360,6 +360,8 @@ def run(ctx):
     P("scc._PositioningTracker.update_positioning", tracker_transition, functions=[_PositioningTracker.update_positioning])
     import props.C11_italics as IT
     IT.prove_passes(ctx)
+    import props.C05_captions as CP
+    CP.prove_captions(ctx)
     ctx.bounded("programs", "pop-on programs against a reference CEA-608 decoder: every PAC address (15x8), tab offset and "
                 "table code on its own, single and doubled (PAC TO doubled as a unit), and seeded programs of 1-3 rows in "
                 "ascending screen order with basic / special / extended characters, italic PACs, mid-row codes and "
